@@ -25,6 +25,31 @@ import (
 type single struct {
 	Path   string `json:"path"`
 	Prefix string `json:"prefix"`
+	// Extra: File settings that have nothing to do with the package: "" | preamble | noformat |
+	// preamble+noformat | canonical | anon | comments | preamble+anon
+	Extra string `json:"extra,omitempty"`
+}
+
+var extras = []string{"preamble", "noformat", "preamble+noformat", "canonical", "anon", "comments", "preamble+anon"}
+
+func extraOps(extra string) []recipe.FileOp {
+	var ops []recipe.FileOp
+	if strings.Contains(extra, "preamble") {
+		ops = append(ops, recipe.FileOp{Op: "CgoPreamble", Args: []recipe.Text{"#include <stdio.h>"}})
+	}
+	if strings.Contains(extra, "noformat") {
+		ops = append(ops, recipe.FileOp{Op: "NoFormat"})
+	}
+	if strings.Contains(extra, "canonical") {
+		ops = append(ops, recipe.FileOp{Op: "CanonicalPath", Args: []recipe.Text{"vanity.example/p"}})
+	}
+	if strings.Contains(extra, "anon") {
+		ops = append(ops, recipe.FileOp{Op: "Anon", Args: []recipe.Text{"anon.example/driver"}})
+	}
+	if strings.Contains(extra, "comments") {
+		ops = append(ops, recipe.FileOp{Op: "HeaderComment", Args: []recipe.Text{"Code generated. DO NOT EDIT."}}, recipe.FileOp{Op: "PackageComment", Args: []recipe.Text{"Package p."}})
+	}
+	return ops
 }
 
 func (c single) scenario() imps.Scenario {
@@ -32,6 +57,7 @@ func (c single) scenario() imps.Scenario {
 	if c.Prefix != "" {
 		sc.File.Ops = append(sc.File.Ops, recipe.FileOp{Op: "PackagePrefix", Args: []recipe.Text{recipe.Text(c.Prefix)}})
 	}
+	sc.File.Ops = append(sc.File.Ops, extraOps(c.Extra)...)
 	sc.File.Body = []*recipe.Node{
 		recipe.S().C("Var").C("Id", "_").C("Op", "=").Add(recipe.Qual(c.Path, "S0")),
 		recipe.S().C("Var").C("Id", "_").Add(recipe.Qual(c.Path, "T0")),
@@ -185,7 +211,7 @@ func TestC18(t *testing.T) {
 			}
 		}
 		collide := false
-		n := rapid.IntRange(2, 10).Draw(rt, "n")
+		n := rapid.IntRange(1, 10).Draw(rt, "n")
 		for len(sc.Paths) < n {
 			switch rapid.IntRange(0, 3).Draw(rt, "kind") {
 			case 0: // a colliding group
@@ -216,6 +242,11 @@ func TestC18(t *testing.T) {
 			}
 			sc.File.Ops = append(sc.File.Ops, recipe.FileOp{Op: rapid.SampledFrom([]string{"ImportAlias", "ImportAlias", "ImportName"}).Draw(rt, "hintop"), Args: []recipe.Text{recipe.Text(p), recipe.Text(name)}})
 		}
+		if rapid.IntRange(0, 2).Draw(rt, "extra") == 0 {
+			x := rapid.SampledFrom(extras).Draw(rt, "extrakind")
+			sc.File.Ops = append(sc.File.Ops, extraOps(x)...)
+			r.Class("sets_with_setting:" + x)
+		}
 		sc.Paths = rapid.Permutation(sc.Paths).Draw(rt, "order")
 		sc.File.Body = imps.GenBody(rt, sc.Paths, imps.Profile{})
 		if collide {
@@ -239,6 +270,11 @@ func TestC18(t *testing.T) {
 				r.NonTrivial(fmt.Sprintf("%+v", c))
 				n++
 			}
+			// and once under a File setting that has nothing to do with the package (rotating)
+			cx := single{Path: p.Path, Prefix: []string{"", "pkg"}[(i/len(extras))%2], Extra: extras[(i+int(r.Seed))%len(extras)]}
+			hx.One(r, ckS, cx)
+			r.NonTrivial(fmt.Sprintf("%+v", cx))
+			r.Class("single_with_setting:" + cx.Extra)
 			if p.Importable {
 				r.Class("importable_std_package")
 			} else {
